@@ -223,3 +223,78 @@ func c04IsStreamConn(t types.Type) bool {
 	}
 	return false
 }
+
+// c04StringAccum — R4.18 "never allocates memory out of proportion to the input": a text
+// built from a value that came off the wire is not accumulated by string concatenation in a
+// loop over that value. `s = s + piece` once per octet (or per component) copies everything
+// built so far each time: the memory allocated is quadratic in the length of the value
+// (one 8 KB name costs about 100 MB to print), and the names of dropped packets are printed
+// at the default log level on the receiving goroutines. In std/encoding no loop carries a
+// string that it extends by concatenation.
+func c04StringAccum(c *core.Ctx) {
+	p := c.P
+	n := 0
+	nloops := 0
+	for _, fn := range p.FuncsIn(core.ModPath + "/std/encoding") {
+		if strings.HasSuffix(p.File(fn.Pos()), "_test.go") {
+			continue
+		}
+		rec := fn.Signature.Recv()
+		isFmt := fn.Name() == "String" || fn.Name() == "ToString"
+		if rec == nil || !isFmt {
+			continue
+		}
+		n++
+		bad := ""
+		for _, b := range fn.Blocks {
+			for _, in := range b.Instrs {
+				phi, ok := in.(*ssa.Phi)
+				if !ok {
+					break
+				}
+				if bt, ok := phi.Type().Underlying().(*types.Basic); !ok || bt.Info()&types.IsString == 0 {
+					continue
+				}
+				if !core.InLoop(b) {
+					continue
+				}
+				nloops++
+				// an incoming value that is a concatenation containing the phi itself
+				var grows func(v ssa.Value, d int) bool
+				grows = func(v ssa.Value, d int) bool {
+					if d == 0 {
+						return false
+					}
+					switch x := v.(type) {
+					case *ssa.BinOp:
+						if x.Op != token.ADD {
+							return false
+						}
+						return x.X == ssa.Value(phi) || x.Y == ssa.Value(phi) || grows(x.X, d-1) || grows(x.Y, d-1)
+					case *ssa.Phi:
+						if x == phi {
+							return false
+						}
+						for _, e := range x.Edges {
+							if e == ssa.Value(phi) {
+								continue
+							}
+							if grows(e, d-1) {
+								return true
+							}
+						}
+					}
+					return false
+				}
+				for _, e := range phi.Edges {
+					if grows(e, 6) {
+						bad = c.Pos(e.(ssa.Instruction))
+					}
+				}
+			}
+		}
+		c.Decide(bad == "", "R4.18", "text-form-not-built-by-concatenation:"+core.FuncName(fn), p.Pos(fn.Pos()), "no loop of the formatter extends a string by concatenation", "the formatter extends a string by concatenation once per element of its value (at "+bad+"): each step copies the text built so far, so printing a value of n octets allocates memory quadratic in n — about 100 MB for one 8 KB name component, and the names of dropped packets are printed on the receive path")
+	}
+	_ = nloops
+	c.Floor("R4.18", "text formatters (String/ToString methods) of std/encoding", n, 8)
+}
